@@ -18,6 +18,7 @@ require (
 	github.com/Masterminds/sprig/v3 v3.3.0 // indirect
 	github.com/beorn7/perks v1.0.1 // indirect
 	github.com/cespare/xxhash/v2 v2.3.0 // indirect
+	github.com/conduitio/yaml/v3 v3.3.0 // indirect
 	github.com/fatih/color v1.19.0 // indirect
 	github.com/gammazero/deque v1.2.1 // indirect
 	github.com/go-viper/mapstructure/v2 v2.5.0 // indirect
